@@ -3,8 +3,8 @@
 into /verif/seeded/<name>/ (patch.diff, demonstration, meta.json incl. what was run here)."""
 import json, os, re, shutil, sys
 name, prop = sys.argv[1], sys.argv[2]
-src = "/tmp/seedout/" + name
-dst = "/verif/seeded/" + name
+src = os.environ.get("OUT_BASE", "/tmp/seedout") + "/" + name
+dst = "/verif/seeded/" + name + os.environ.get("SEED_SUFFIX", "")
 os.makedirs(dst, exist_ok=True)
 shutil.copy(src + "/patch.diff", dst + "/patch.diff")
 for f in os.listdir(src):
